@@ -174,12 +174,74 @@ TARGETS = [
                   self_methods={"count": "count", "offset": "off"},
                   methods={"is_valid": "(Generated.idxIsValid {recv} {0})", "create_entry": "(some {0})"},
                   exprs={"Ok(None)": "none"})),
+    # ---- the protocol of accesses to the one open file shared by all readers (FileSource)
+    dict(name="fileSourceReadProto", group="Proto", file="src/bases/io/file.rs", fn="read", after=r"impl Source for FileSource", proto=True, cfg={}),
+    dict(name="fileSourceReadExactProto", group="Proto", file="src/bases/io/file.rs", fn="read_exact", after=r"impl Source for FileSource", proto=True, cfg={}),
+    dict(name="fileSourceCutSmallProto", group="Proto", file="src/bases/io/file.rs", fn="cut", after=r"impl Source for FileSource", proto=True,
+         select=r"if full_size\.into_u64\(\) < 4 \* 1024 \{", cfg={}),
 ]
 
 
 def read(path):
     with open(os.path.join(REPO, path)) as f:
         return f.read()
+
+
+def proto_actions(body, select=None):
+    """the sequence of actions a function body performs on the mutex-protected file of `FileSource`:
+    `lock` (`let mut f = self.lock().unwrap()`), `seek` (`f.seek(SeekFrom::Start(..))?`), `read`
+    (`f.read(..)`, `f.read_exact(..)`, `f.by_ref().take(..).read_to_end(..)?`), `unlock` (end of the block
+    holding the guard).  `select` = regex of an `if … {` whose then-block is the part to look at.
+    Anything else touching the guard, the lock or the source makes the body untranslatable."""
+    import re
+    text = re.sub(r"//[^\n]*", "", body)
+    if select:
+        m = re.search(select, text)
+        if not m:
+            raise rs2lean.Untranslatable("branch not found: " + select)
+        i = text.index("{", m.end() - 1)
+        d = 0
+        for j in range(i, len(text)):
+            d += (text[j] == "{") - (text[j] == "}")
+            if d == 0:
+                text = text[i + 1:j]
+                break
+    # statements at the top level of the block
+    sts, cur, d = [], "", 0
+    for c in text:
+        if c in "({[":
+            d += 1
+        elif c in ")}]":
+            d -= 1
+        if c == ";" and d == 0:
+            sts.append(" ".join(cur.split()))
+            cur = ""
+        else:
+            cur += c
+    if cur.strip():
+        sts.append(" ".join(cur.split()))
+    acts = []
+    guard = None
+    for st in sts:
+        m = re.fullmatch(r"let mut (\w+) = self\.lock\(\)\.unwrap\(\)", st)
+        if m:
+            if guard:
+                raise rs2lean.Untranslatable("second lock in one access")
+            guard = m.group(1)
+            acts.append("lock")
+            continue
+        if guard and re.fullmatch(r"%s\.seek\(SeekFrom::Start\((.*)\)\)\?" % guard, st):
+            acts.append("seek")
+            continue
+        if guard and (re.fullmatch(r"%s\.read(_exact)?\(buf\)\??" % guard, st)
+                      or re.fullmatch(r"%s\.by_ref\(\) ?\.take\(.*\) ?\.read_to_end\(&mut buf\)\?" % guard, st)):
+            acts.append("read")
+            continue
+        if (guard and re.search(r"\b%s\b" % guard, st)) or ".lock()" in st or "self.source" in st:
+            raise rs2lean.Untranslatable("statement touching the shared file not understood: " + st[:80])
+    if guard:
+        acts.append("unlock")
+    return acts
 
 
 def lower_first(s):
@@ -218,8 +280,8 @@ def apply_enums(t):
     return "\n".join(decls)
 
 
-GROUP_IMPORTS = {"Search": ["JubakoModel.Generated.FuncsBytes"], "Content": ["JubakoModel.Generated.FuncsBytes"], "Dir": ["JubakoModel.Generated.FuncsBytes", "JubakoModel.Model.Bytes"]}
-GROUP_ORDER = ["Bytes", "Content", "Dir", "Order", "Search", "View", "Check"]
+GROUP_IMPORTS = {"Proto": ["JubakoModel.Model.FileCursor"], "Search": ["JubakoModel.Generated.FuncsBytes"], "Content": ["JubakoModel.Generated.FuncsBytes"], "Dir": ["JubakoModel.Generated.FuncsBytes", "JubakoModel.Model.Bytes"]}
+GROUP_ORDER = ["Bytes", "Content", "Dir", "Order", "Search", "View", "Check", "Proto"]
 
 
 def main():
@@ -246,7 +308,10 @@ def main():
             src = read(t["file"])
             sig, body = rs2lean.function_source(src, t["fn"], t.get("after"))
             decls = apply_enums(t) if t.get("enums") else ""
-            if t.get("let"):
+            if t.get("proto"):
+                acts = proto_actions(body, t.get("select"))
+                text = f"def {name} : List FAct := [" + ", ".join("." + a for a in acts) + "]\n"
+            elif t.get("let"):
                 text = rs2lean.translate_expr(name, rs2lean.let_initialiser(body, t["let"]), t["cfg"])
             else:
                 text = rs2lean.translate(name, body, t["cfg"])
